@@ -79,11 +79,13 @@ func dropUnknown(msg protoreflect.Message, mask fmutils.NestedMask) {
 
 // FilterClone is like Filter but clones and returns a new msg instead of modifying the original.
 func (r *ResponseFilter) FilterClone(msg proto.Message) proto.Message {
-	if r.fields == nil {
-		return msg
-	}
 	if msg == nil || !msg.ProtoReflect().IsValid() {
 		return msg // nothing there (also a typed nil pointer)
+	}
+	if r.fields == nil {
+		// no mask selects everything; it is still a clone, as the name says: the caller must not be
+		// handed the message it asked about (for a resource that is the stored message itself)
+		return proto.Clone(msg)
 	}
 	if len(r.fields.GetPaths()) == 0 {
 		clone := proto.Clone(msg)
